@@ -91,7 +91,7 @@ Step ==
                IF tsk[k].ended /\ ~(tsk[k].how = "closed" /\ e.how = "failed") THEN Fail("C06.ended_twice")
                \* once its cancellation was raised inside it, the task ends cancelled (only a privileged failure or a forced close may override)
                ELSE IF (tsk[k].sawct \/ tsk[k].must) /\ e.how \notin {"cancelled", "closed"}
-                       /\ ~(e.how = "failed" /\ e.exc # <<>> /\ e.exc[1] = "exc" /\ e.exc[3] = "Assert")
+                       /\ ~(e.how = "failed" /\ e.exc # <<>> /\ e.exc[1] = "exc" /\ e.exc[3] \in {"Assert", "AssertSub"})
                     THEN Fail("C06.cancellation_lost")
                ELSE IF tsk[k].res # <<>> /\ tsk[k].res # exp /\ ~(e.how = "closed" /\ tsk[k].res[1] = "tclosed")
                     THEN Fail("C06.result_changed")
